@@ -119,6 +119,10 @@ let run file =
               if get kv "same" <> "true" then propfail "serial_backends_agree";
               let (c, body) = write_img before_model in
               if string_of_n c <> get kv "imgc" then mismatch "img.count" (get kv "imgc") (string_of_n c);
+              if csv_of_ns body <> get kv "body" then mismatch "img.ids" (get kv "body") (csv_of_ns body);
+              (* the page image, read by the model's reader of the published format, must give back free + pending *)
+              let ibody = ns_of_csv (get kv "body") in
+              if not (serial_ok impl_before (Base.sortN (read_ids (n_of_string (get kv "imgc"), ibody)))) then propfail "image_decodes_to_free_and_pending";
               if get kv "imgf" <> "16" then mismatch "img.flags" (get kv "imgf") "16";
               let need = 16 + 8 * List.length body in
               if int_of_n (estimated_write_size before_model) < need then propfail "estimate_too_small";
